@@ -572,6 +572,9 @@ func runC17(ctx *core.Ctx, idx int) *core.Result {
 	if idx%64 == 33 {
 		c17LineDirectiveProbe(ctx, res)
 	}
+	if idx%64 == 1 {
+		c17AddedImportProbe(res)
+	}
 	paths := [][]engineRun{applyAPI(pt, srcs)}
 	pnames := []string{"api"}
 	if lineDirs {
@@ -669,5 +672,29 @@ func c17LineDirectiveProbe(ctx *core.Ctx, res *core.Result) {
 	cr, _ := applyCLI(ctx, pt, []string{src}, "--skip-import-processing")
 	if class, detail, _, _ := judgeComments(src, cr[0].Out); class != "" || cr[0].Err != "" {
 		res.Violate("C17/"+class+"/line-directive-without-import-processing", detail+cr[0].Err, replayFiles(pt, src, cr[0].Out))
+	}
+}
+
+// c17AddedImportProbe is the directed input of the known finding C17/doc-comment-moved-to-added-import: a patch adds an
+// import to a file that has none and whose first declaration is documented. astutil.AddNamedImport gives the new import
+// declaration the position of the package clause's line, and go/printer then prints the doc comment of the first
+// declaration as a trailing comment of the new import.
+func c17AddedImportProbe(res *core.Result) {
+	src := "package a // import \"x/a\"\n\n// T doc.\ntype T struct{}\n\nfunc f() { legacy(1) }\n"
+	pt := "@@\nvar x expression\n@@\n+import \"example.com/bar\"\n\n-legacy(x)\n+bar.New(x)\n"
+	runs := applyAPI(pt, []string{src})
+	res.Evals++
+	if runs[0].Pan != "" || runs[0].Err != "" {
+		res.Violate("C17/added-import-probe-failed", runs[0].Pan+runs[0].Err, replayFiles(pt, src, ""))
+		return
+	}
+	if class, detail, _, _ := judgeComments(src, runs[0].Out); class != "" {
+		res.Violate("C17/doc-comment-moved-to-added-import", "["+class+"] "+detail, replayFiles(pt, src, runs[0].Out))
+	}
+	// with an import declaration in the file the same patch leaves the doc comment where it is
+	src2 := strings.Replace(src, "\n\n// T doc.", "\n\nimport \"os\"\n\n// T doc.", 1)
+	runs = applyAPI(pt, []string{src2})
+	if class, detail, _, _ := judgeComments(src2, runs[0].Out); class != "" || runs[0].Err != "" {
+		res.Violate("C17/"+class+"/added-import-next-to-existing-one", detail+runs[0].Err, replayFiles(pt, src2, runs[0].Out))
 	}
 }
